@@ -516,6 +516,28 @@ def selfIterObj (n : Nat) (fail : Nat → Bool) : Data (Nat × Bool) (Nat × Boo
   itLoad _ t := t
   selfIter := true
 
+/-- Dataset-level state `(i, done)` whose `__iter__` builds a separate, non-stateful iterator object EAGERLY
+from the dataset's current position (`pos`); the iterator writes the position back into the dataset and
+survives an exception. -/
+structure Eager where
+  i : Nat
+  done : Bool
+  pos : Nat
+  deriving DecidableEq, Repr
+
+def eagerObj (n : Nat) (fail : Nat → Bool) : Data Eager (Nat × Bool) Unit where
+  iterable := true
+  get d _ := (none, d)
+  iter d := if d.done then { i := 0, done := false, pos := 0 } else { d with pos := d.i }
+  next d :=
+    if d.pos < n then (produce fail d.pos, { d with pos := d.pos + 1, i := d.pos + 1 })
+    else (.stop, { d with done := true })
+  dsState := some fun d => (d.i, d.done)
+  dsLoad d s := { d with i := s.1, done := s.2 }
+  itState := none
+  itLoad d _ := d
+  selfIter := false
+
 /-! ### Reference semantics -/
 
 /-- What one batch of indices becomes: `error 0` if one of its indices fails, `error 1` if `collate_fn`
